@@ -56,6 +56,7 @@ fn build_suite(name: &str, params: &Value) -> Box<dyn Suite + Send + Sync> {
                     cr_comments: o["cr_comments"].as_bool().unwrap_or(false),
                     regions2: o["regions2"].as_bool().unwrap_or(false),
                     spacing_mode: o["mode"].as_u64().unwrap_or(1) as u32,
+                    crlf_tokens: o["crlf_tokens"].as_bool().unwrap_or(false),
                 })
             }).collect();
             let alt_spacings = params["alts"].as_array().map(|a| a.iter().map(|x| (x[0].as_u64().unwrap(), x[1].as_u64().unwrap() as u32)).collect()).unwrap_or_default();
